@@ -2,6 +2,11 @@ use encoding_rs::Encoding;
 use xhtmlchardet::detect;
 
 pub fn encoding(data: &[u8], hint: Option<String>) -> Option<&'static Encoding> {
+    // xhtmlchardet only understands an encoding declaration written without
+    // white space around the equals sign
+    if let Some(label) = spaced_encoding_declaration(data) {
+        return Encoding::for_label(label.as_bytes());
+    }
     let mut cursor = std::io::Cursor::new(data);
     let charsets = detect(&mut cursor, hint).ok()?;
     // no encoding detected
@@ -11,6 +16,26 @@ pub fn encoding(data: &[u8], hint: Option<String>) -> Option<&'static Encoding> 
         &charsets[0]
     };
     Encoding::for_label(label.as_bytes())
+}
+
+// The encoding named by the XML declaration of data in an ASCII-compatible
+// encoding, if the declaration uses the white space that XML allows around
+// the equals sign.
+fn spaced_encoding_declaration(data: &[u8]) -> Option<&str> {
+    let head = &data[..data.len().min(1024)];
+    let end = head.windows(2).position(|w| w == b"?>")?;
+    let declaration = std::str::from_utf8(&head[..end]).ok()?;
+    let declaration = declaration.strip_prefix("<?xml")?;
+    let after_name = &declaration[declaration.find("encoding")? + "encoding".len()..];
+    let after_equals = after_name.trim_start().strip_prefix('=')?;
+    let value = after_equals.trim_start();
+    if after_name.len() == after_name.trim_start().len() && after_equals.len() == value.len() {
+        // written the plain way
+        return None;
+    }
+    let quote = value.chars().next().filter(|c| *c == '"' || *c == '\'')?;
+    let value = &value[1..];
+    Some(&value[..value.find(quote)?])
 }
 
 pub(crate) fn decode(data: &[u8], hint: Option<String>) -> String {
